@@ -300,6 +300,7 @@ def diagnostics(rep):
                 rep.violation("c16crop:%d" % mt, "--max-trace %d shows %d trace items" % (mt, shown), rp)
     finally:
         shutil.rmtree(tmp, ignore_errors=True)
+    vlib.huge_token_probe(rep, ("diag",))
 
 
 def replay(r):
